@@ -17,6 +17,9 @@ def units(tier):
     for n in (1, 2):
         us.append(Unit(CE.VDAddRRCEEntry, {'n': n}))
     us += [Unit(RRC.RRNew, d) for d in RRC.sweep(tier)]
+    # a symbolic link without a target has no representation: refused, image unchanged
+    from contracts import atomic as A
+    us.append(Unit(A.Refused, {'sid': 'add_symlink:empty-target'}))
     return us
 
 
